@@ -1093,6 +1093,10 @@ func (env *Env) ncalls(arg *Expr) Value {
 	// ncalls(x.f) where f is a func-typed field, or ncalls("key")
 	if arg.Kind == EStr {
 		k, _ := strconv.Unquote(arg.Op)
+		if sp := env.eng().specs.Funcs[k]; sp == nil || sp.Flags["counted"] == "" {
+			// a counter nobody increments would make the clause vacuous
+			panic(specErr("ncalls(%q): there is no contract flagged `counted` for that function", k))
+		}
 		t := env.st.heapGet("NC_"+sanitize(k), SInt)
 		return Value{T: mathInt, Tm: t}
 	}
